@@ -167,8 +167,8 @@ def minimise(pool, lane, job, fd, budget_s=40):
     return j, f, cause, state['refseed']
 
 
-def make_replay(job, fd, cause, hashseed, root, minimised, parent=None):
-    return {'format': 1, 'property': PROP, 'engine': 'B', 'root_seed': root, 'hashseed': hashseed, 'job': job,
+def make_replay(job, fd, cause, hashseed, root, minimised, parent=None, prop=PROP):
+    return {'format': 1, 'property': prop, 'engine': 'B', 'root_seed': root, 'hashseed': hashseed, 'job': job,
             'violation': {'class': fd['class'], 'location': {'op': fd['op'], 'client': fd['cid'], 'step': fd['k'], 'cause': cause},
                           'message': fd['message'], 'digest': vdig(fd)},
             'minimised': minimised, 'parent': parent}
@@ -330,9 +330,9 @@ def main(tier, root, budget_s=None, replay=None, prop=PROP, gen=None, extra=None
                         printed_known.add(key)
                         print('KNOWN-FINDING: property=%s %s :: %s' % (prop, key, known[key]))
                     continue
-                rawrec = make_replay(job, f, 'unminimised', hs, root, False)
+                rawrec = make_replay(job, f, 'unminimised', hs, root, False, prop=prop)
                 rawpath = H.write_replay(prop, '%d-%s-raw' % (root, H.digest(key)), rawrec)
-                rec = make_replay(mj, mf, cause, 0 if refseed else hs, root, True, parent=rawpath)
+                rec = make_replay(mj, mf, cause, 0 if refseed else hs, root, True, parent=rawpath, prop=prop)
                 path = H.write_replay(prop, '%d-%s-min' % (root, H.digest(key)), rec)
                 ok1, d1 = run_replay(rec, repo)
                 ok2, d2 = run_replay(rec, repo)
